@@ -6,6 +6,7 @@ P: duration._format: the emitted unit tokens decompose (days*86400+seconds, micr
    of the millisecond renderings; equal renderings compare equal.
 B: text level (re matching of the emitted tokens), render/parse over zones x transitions x precisions.
 """
+from .util import distinct_keys
 import datetime
 import random
 
@@ -218,7 +219,7 @@ def bounded(tier, seed):
     # timestamps: UTC default rendering and full zone names around every DST transition
     zones = sorted(zoneinfo.available_timezones())
     if tier == 'quick':
-        zones = ['UTC', 'America/Edmonton', 'Europe/Berlin', 'Australia/Lord_Howe', 'Asia/Kolkata', 'America/St_Johns', 'Pacific/Chatham', 'Africa/Casablanca'] + rng.sample(zones, 12)
+        zones = ['UTC', 'America/Edmonton', 'Europe/Berlin', 'Australia/Lord_Howe', 'Asia/Kolkata', 'America/St_Johns', 'Pacific/Chatham', 'Africa/Casablanca', 'Africa/Porto-Novo', 'Etc/GMT-3'] + rng.sample(zones, 12)
     base_instants = [1000.0, 1399326141.999836, 1414915323.1225, 1414915323.9995, 1700000000.0005, 2000000000.25]
     for zn in zones:
         try:
@@ -287,9 +288,9 @@ def bounded(tier, seed):
         distinct.add(('c', a, b))
         if (ta < tb and not ra < rb) or (ta > tb and not ra > rb) or (ra == rb and not ta == tb):
             viol('compare %r %r' % (a, b), 'lt=%r gt=%r eq=%r renderings %r %r' % (ta < tb, ta > tb, ta == tb, ra, rb), 'comparison consistent with the renderings')
-    return dict(evaluations=ev, distinct_nontrivial=len(distinct),
+    return dict(evaluations=ev, distinct_nontrivial=len(distinct), distinct_keys=distinct_keys(distinct),
                 rule='durations: lattice of (years, weeks, days, hours, minutes, seconds, microseconds) boundary values: duration(str(d)) == d; timestamps: UTC default '
-                     'rendering and full-zone-name rendering (tzdetail=True) for zones of the installed database (8 fixed + 12 seeded in quick, all in thorough) at fixed '
+                     'rendering and full-zone-name rendering (tzdetail=True) for zones of the installed database (10 fixed, two of them with `-` in the name, + 12 seeded in quick, all in thorough) at fixed '
                      'instants (sub-ms fractions rounding into the next second) and at every DST transition 2010-2030 -1h/-1s/-1ms/0/+1ms/+1s/+30min/+1h: parse(render) == '
                      'instant to the ms, ambiguous wall times rejected or exact; comparisons vs renderings at ms/sub-ms distances; distinct = distinct cases',
                 exhaustive=False, samples=samples, violations=violations[:20], seed=seed)
